@@ -921,6 +921,10 @@ impl<'c> Hist<'c> {
 		let mut invalid_kind = None;
 		if self.profile == Profile::C08 && !self.bg_err && self.rng.chance(1, 4) {
 			invalid_kind = self.make_invalid(&mut tx, None);
+		} else if self.profile == Profile::C14 && !self.bg_err && self.rng.chance(1, 12) {
+			// C14: a rejected transaction must not leave claimed-but-unused slots behind either
+			let kind = if self.rng.chance(1, 2) { 4 } else { 5 };
+			invalid_kind = self.make_invalid(&mut tx, Some(kind));
 		} else if self.profile == Profile::C10 && self.rng.chance(1, 10) {
 			// C10: "an insertion that cannot be represented is rejected instead of being stored wrongly"
 			invalid_kind = self.make_invalid(&mut tx, Some(5));
